@@ -223,6 +223,9 @@ def run(ctx: Ctx):
         confs.append({**base, **extra})
     from .. import xfailfam
     xfailfam.check(ctx, "C04")
+    # the approval loop over several test files vs Model/Session.v
+    from .. import sessloop
+    sessloop.check_part(ctx, 36 if not ctx.thorough else 500, "C04")
     outs = tmap(run_config, confs)
     terms, idx = [], []
     for i, (c, o) in enumerate(zip(confs, outs)):
@@ -274,6 +277,9 @@ def classify(c, o):
 
 
 def replay(ctx: Ctx, data):
+    if isinstance(data.get("case"), dict) and data["case"].get("kind") == "sessloop":
+        from .. import sessloop
+        return sessloop.replay_case(data["case"])
     if data["case"].get("kind") == "xfail":
         from .. import xfailfam
         return xfailfam.replay(data["case"], "C04")
